@@ -141,6 +141,43 @@ pub fn literal(t: &mut Tape, cfg: PoeticCfg) -> Vec<PoeticElem> {
     v
 }
 
+/// very long literals: up to ~430 digits on either side of the period with runs of zero digits, so that the leading
+/// digits lie beyond 10^308 and the trailing ones beyond 10^-308 (overflow / underflow of the powers of ten)
+pub fn extreme_literal(t: &mut Tape) -> Vec<PoeticElem> {
+    fn side(t: &mut Tape) -> usize {
+        match t.pick(5) {
+            0 => 1 + t.pick(4),
+            1 => 290 + t.pick(40),
+            2 => 305 + t.pick(125),
+            3 => 1 + t.pick(330),
+            _ => 300 + t.pick(24),
+        }
+    }
+    fn fill(t: &mut Tape, n: usize, v: &mut Vec<PoeticElem>) {
+        // a run of zero digits first (none / all / some), then mostly non-zero digits
+        let zeros = match t.pick(4) {
+            0 => 0,
+            1 => n,
+            2 => n.saturating_sub(1 + t.pick(3)),
+            _ => t.pick(n + 1),
+        };
+        for i in 0..n {
+            let len = if i < zeros || t.chance(1, 8) { *t.choose(&[10usize, 20]) } else { 1 + t.pick(9) };
+            let letter = *t.choose(&['x', 'q', 'z', 'j']);
+            v.push(PoeticElem::Word(std::iter::repeat(letter).take(len).collect()));
+        }
+    }
+    let mut v = vec![];
+    let before = side(t);
+    fill(t, before, &mut v);
+    if t.chance(2, 3) {
+        v.push(PoeticElem::Dot);
+        let after = side(t);
+        fill(t, after, &mut v);
+    }
+    v
+}
+
 /// are all quotes and parentheses closed on this line (as the lexer pairs them)?
 pub fn closed_on_line(text: &str) -> bool {
     let mut it = text.chars();
